@@ -2,7 +2,7 @@
    Algorithm model: C12_Model.v part 1 (transcription of Flag_complex_edge_collapser.h); specification model: part 2
    (barcode of the flag filtration through ReduceExec.certified_lows).  Proofs: C12_Proofs.v. *)
 From Coq Require Import ZArith List Bool Sorting.Sorted.
-Require Import Reduce ReduceExec C12_Model C12_Proofs C12_Tables.
+Require Import Reduce ReduceExec C12_Model C12_Proofs C12_Tables C12_Conn.
 Import ListNotations.
 Local Open Scope Z_scope.
 
@@ -132,6 +132,40 @@ Theorem C12_is_dominated_by_spec : forall (s : state) (en : list Z) (c : Z) (f :
   (is_dominated_by false s en c f = true <-> forall w, In w en -> fv_le (lookup_inf (nb_get s c) w) f = true).
 Proof. exact is_dominated_by_spec. Qed.
 Print Assumptions C12_is_dominated_by_spec.
+
+(* Dimension 0 of the decisive clause, proved: at every time tau the graph of the returned edges (edges with value <= tau)
+   has exactly the same connected components as the input graph at time tau - for every simple graph, either table, any
+   order of the vector.  (connL L tau = reflexive-symmetric-transitive closure of "joined by an edge of L of value <= tau";
+   lift = the input edge with its value seen as an fv.)  Reason, proved in C12_Conn.v: while an edge uv is delayed from t to
+   t' (or removed, t' = +inf) the sweep holds, at every time in [t,t'), a common neighbour c of u and v in the current
+   graph (sweep_common_neighbour), so u-c-v replaces the edge; the neighbour table is shown to represent exactly
+   "returned edges so far + edges still to process" throughout (repr).
+   With the standard fact that the 0-dimensional persistence diagram of a filtered graph is determined by the components
+   at each time (births at the vertex value, deaths at the merge times) this is the H_0 part of the property. *)
+Theorem C12_collapse_preserves_components_partial : forall (dense : bool) (es : list edge) (out : list oedge),
+  NoDup (map ekey es) -> (forall u v t, In (u, v, t) es -> 0 <= u /\ 0 <= v /\ u <> v) ->
+  process_edges dense es = Some out ->
+  forall (tau : Z) (a b : Z), connL (map lift es) (Fin tau) a b <-> connL out (Fin tau) a b.
+Proof. exact components_preserved_any. Qed.
+Print Assumptions C12_collapse_preserves_components_partial.
+
+Theorem C12_entry_point_preserves_components_partial : forall (dense : bool) (es : list edge) (out : list oedge),
+  NoDup (map ekey es) -> (forall u v t, In (u, v, t) es -> 0 <= u /\ 0 <= v /\ u <> v) ->
+  flag_complex_collapse_edges dense es = Some out ->
+  forall (tau : Z) (a b : Z), connL (map lift es) (Fin tau) a b <-> connL out (Fin tau) a b.
+Proof. exact components_preserved_entry_point. Qed.
+Print Assumptions C12_entry_point_preserves_components_partial.
+
+(* instance: in ex_graph the edge (0,2,3) is removed, yet 0 and 2 are joined from time 2 on through 1, before and after *)
+Example C12_components_example :
+  connL (map lift ex_graph) (Fin 2) 0 2 /\ connL [(2, 3, Fin 4); (1, 2, Fin 2); (0, 1, Fin 1)] (Fin 2) 0 2.
+Proof.
+  split; (apply Relations.Relation_Operators.rst_trans with 1; apply Relations.Relation_Operators.rst_step).
+  - exists (Fin 1). split; [left; cbn; tauto|reflexivity].
+  - exists (Fin 2). split; [left; cbn; tauto|reflexivity].
+  - exists (Fin 1). split; [left; cbn; tauto|reflexivity].
+  - exists (Fin 2). split; [left; cbn; tauto|reflexivity].
+Qed.
 
 (* The decisive clause of the property.  NOT proved here: it is the theorem of Boissonnat-Pritam (SoCG 2020) and
    Glisse-Pritam (SoCG 2022) that removing / delaying dominated edges preserves the persistence module of the flag
